@@ -213,7 +213,7 @@ class Generator:
             rng = self.src.impl_block_containing(impl[3:].replace('~', ' '), src_name)
         else:
             raise ExtractError('unknown impl kind ' + impl)
-        parts = self.src.fn_parts(src_name, rng)
+        parts = self.src.fn_parts(src_name, rng, pick=int(spec['pick']) if spec.get('pick') else None)
         body = parts['body']
         region = spec.get('region')
         if region:
